@@ -1168,6 +1168,10 @@ class Taylor2D(Taylor3D):
 
     # As much as possible, we inherit from the 2D code; below are the changes we make
 
+    # class-level index tables: shadow the 3D ones, so that class methods used before the first Taylor2D
+    # object exists cannot silently pick up the tables of an already initialized Taylor3D
+    Lmax = Npower = pow2ind = ind2pow = powlrange = Lproj = directmult = powercoeff = None
+
     @staticmethod
     def makeindexPowerFC(Lmax):
         """
